@@ -1,4 +1,6 @@
 SPECIFICATION Spec
+CONSTANT Dev = {}
 INVARIANT Contract
 INVARIANT Design
+INVARIANT Resplit
 CHECK_DEADLOCK FALSE
